@@ -125,6 +125,9 @@ func (h *inFlightRequestsHandler) onIncomingFrameReceived(f *frame.Frame) error 
 			verifPoint("inflight.incoming.afterRemove")
 			if inFlight.managedStreamId {
 				if err := h.releaseStreamId(streamId); err != nil {
+					// the handler was closed meanwhile; the request is not registered any more, so nobody else
+					// would complete it
+					inFlight.close(err)
 					return err
 				}
 			}
@@ -294,7 +297,12 @@ func (r *inFlightRequest) onFrameReceived(f *frame.Frame) error {
 		}
 		return nil
 	case <-r.ctx.Done():
-		return fmt.Errorf("%v: request closed", r)
+		// either the request was closed already (then this is a no-op), or the connection's context was canceled
+		// while the frame was being handed over: the request may not be registered any more (last frame), so it
+		// must be completed here
+		err := fmt.Errorf("%v: request closed", r)
+		r.close(err)
+		return err
 	default:
 		err := fmt.Errorf("%v: too many pending incoming frames: %d", r, len(r.incoming))
 		r.close(err)
